@@ -21,12 +21,16 @@ SHAPES = [
     ("band_r", ["band", "r"]), ("bor", ["bor"]), ("bnot_r", ["bnot", "r"]), ("bxor_m", ["bxor", "m"]),
     ("rs_r", ["rs", "r"]), ("rsm_r", ["rsm", "r"]), ("e_rsm", ["e", "rsm"]), ("cs_r", ["cs", "r"]),
     ("csm_w", ["csm", "w"]), ("csv_r", ["csv", "r"]), ("dr_r", ["dr", "r"]), ("dr", ["dr"]),
-    ("e_dr", ["e", "dr"]), ("r_fr", ["r", "r"]), ("a3", ["w", "r", "r"]), ("a4", ["r", "w", "r", "m"]),
+    ("e_dr", ["e", "dr"]), ("r_fr", ["r", "r"]),
+    ("ab_r", ["b", "r"]), ("abv", ["bv"]), ("dyn_r", ["b", "r"]), ("rband_r", ["band", "r"]), ("rbor", ["bor"]),
+    ("rbnot_r", ["bnot", "r"]),
+    ("u_n", ["n"]), ("u_m", ["m"]), ("u_n_m", ["n", "m"]), ("u_mw", ["mw"]), ("u_bnot_m", ["bnot", "m"]), ("a3", ["w", "r", "r"]), ("a4", ["r", "w", "r", "m"]),
     ("a5", ["e", "r", "w", "n", "r"]), ("a8", ["w", "r", "r", "r", "r", "r", "m", "r"]),
     ("a16", ["w"] + ["r"] * 15), ("a16e", ["e", "w"] + ["r"] * 13 + ["m"]),
 ]
-SEQ_ONLY = {"cs_r", "csm_w", "csv_r", "dr_r", "dr", "e_dr"}          # no ParJoin
-NO_GET = {"csv_r", "dr_r", "dr", "e_dr", "csm_w", "e_rsm"}           # no lend_get in the harness
+SEQ_ONLY = {"cs_r", "csm_w", "csv_r", "dr_r", "dr", "e_dr", "dyn_r"}          # no ParJoin
+UNC = {"u_n", "u_m", "u_n_m", "u_mw", "u_bnot_m"}               # walk all 2^24 indices
+NO_GET = {"csv_r", "dr_r", "dr", "e_dr", "csm_w", "e_rsm"} | UNC           # no lend_get in the harness
 NO_LEND = {"e_rsm", "dr", "e_dr"}
 VEC_BACKED_MAX = 300000          # positions backed by VecStorage / DefaultVecStorage
 VEC_POS = {0, 4, 5, 9, 10, 14, 16}  # member positions whose storage is vector-backed (see join_dom.rs by_pos)
@@ -124,6 +128,10 @@ def gen_scripts(seed, tier, want_par):
             a = [i for i in range(n + 4) if rng.random() < 0.6]
             b = [i for i in range(n + 4) if rng.random() < 0.7]
             combos.append((a, b, n))
+        if shape in UNC:
+            # each of these walks the whole index space (2^24 items): fewer of them
+            rng.shuffle(combos)
+            combos = combos[: (24 if tier == "quick" else 150)]
         for ci, combo in enumerate(combos):
             for _ in range(per_pair):
                 v = vs[(ci + rng.randrange(len(vs))) % len(vs)]
